@@ -19,11 +19,12 @@ func c01Values() []model.Value {
 	return []model.Value{
 		model.Int(0), model.Int(1), model.Int(-1), model.Int(2), model.Int(7), model.Int(-3),
 		model.Int(65534), model.Int(65535), model.Int(65536), model.Int(math.MaxInt64), model.Int(math.MaxInt64 - 1), model.Int(9007199254740992), model.Int(9007199254740993),
-		model.Float(0), model.Float(0.5), model.Float(-1.5), model.Float(2), model.Float(65535),
+		model.Float(0), model.Float(0.5), model.Float(-1.5), model.Float(2), model.Float(65535), model.Float(math.Copysign(0, -1)),
 		model.Str(""), model.Str("a"), model.Str("A"), model.Str("ab"), model.Str("10"), model.Str("9"), model.Str("héllo"), model.Str("abc\n"), model.Str(" "), model.Str("l1\n l2 "),
 		model.Bool(true), model.Bool(false),
 		model.Null(),
 		model.Arr(), model.Arr(model.Int(1)), model.Arr(model.Int(1), model.Str("a"), model.Float(2.5)),
+		model.Arr(model.Float(0), model.Float(0.5), model.Int(2)), model.Arr(model.Float(math.Copysign(0, -1)), model.Int(0), model.Str("0")),
 		h(), h(model.HashEnt{Key: model.Str("a"), Val: model.Int(1)}),
 		h(model.HashEnt{Key: model.Int(1), Val: model.Str("x")}, model.HashEnt{Key: model.Str("b"), Val: model.Float(2.5)}),
 		model.Regex("a"), model.Regex("(?i)^h"), model.Regex("^$"), model.Regex("^l2$"),
